@@ -446,6 +446,12 @@ func c12(r *h.Result, rng *h.Rng, tier string, replay string) error {
 				"status": j.o.Status, "outcome": j.o.Outcome, "queries": j.o.Queries, "body_head": j.o.BodyHead})
 		}
 	}
+	// the client goes away after k chunks, every endpoint (c12gone.go)
+	if os.Getenv("C12_ONLY") == "" || os.Getenv("C12_ONLY") == "gone" {
+		if err := c12Gone(r, rng.Fork(), tier); err != nil {
+			return err
+		}
+	}
 	// model/implementation correspondence for the bookkeeping (FixPeriodPlanner, aggregator, limit, parameters)
 	if err := c12Stages(r, rng.Fork(), tier); err != nil {
 		return err
